@@ -753,4 +753,72 @@ def headStructure (title : Option Str) (metas : List Node) : List Tree :=
    | some t => [.elem tTitle [] (textTree t)]
    | none => []) ++ [.comment ['H','E','A','D']] ++ structKids .nextChild metas
 
+/-! ## Part 5 — the decidable input classes used by the partial theorems and the driver -/
+
+/-- no U+0000 and no U+000D -/
+def clean (s : Str) : Bool := s.all (fun c => c != cNul && c != cCr)
+
+def isTextNode : Node → Bool
+  | .text _ => true
+  | _ => false
+
+def attrValClean : Attr → Bool
+  | .plain _ v => clean v
+  | .cls v => clean v
+  | .clsToggle n _ => clean n
+  | .style v => clean v
+  | .styleKV n v => clean n && clean v
+  | _ => true
+
+mutual
+/-- class `raw-text-child` (negated): no element with `ESCAPE_CHILDREN = false` has a string child -/
+def rawTextFree : Node → Bool
+  | .text _ => true
+  | .elem tag _ kids => (escapeChildren tag || !kids.any isTextNode) && rawTextFreeKids kids
+def rawTextFreeKids : List Node → Bool
+  | [] => true
+  | n :: ns => rawTextFree n && rawTextFreeKids ns
+end
+
+mutual
+/-- classes `nul-char` / `cr-char` (negated): no string anywhere in the view contains U+0000 or U+000D -/
+def cleanNode : Node → Bool
+  | .text s => clean s
+  | .elem _ attrs kids => attrs.all attrValClean && cleanKids kids
+def cleanKids : List Node → Bool
+  | [] => true
+  | n :: ns => cleanNode n && cleanKids ns
+end
+
+def attrStrings : Attr → List Str
+  | .plain _ v => [v]
+  | .bool _ _ => []
+  | .cls v => [v]
+  | .clsToggle n _ => [n]
+  | .style v => [v]
+  | .styleKV n v => [n, v]
+  | .innerHtml r => [r]
+
+mutual
+/-- every string-valued position of a view -/
+def nodeStrings : Node → List Str
+  | .text s => [s]
+  | .elem _ attrs kids => attrs.flatMap attrStrings ++ kidsStrings kids
+def kidsStrings : List Node → List Str
+  | [] => []
+  | n :: ns => nodeStrings n ++ kidsStrings ns
+end
+
+mutual
+def hasInnerHtml : Node → Bool
+  | .text _ => false
+  | .elem _ attrs kids => innerBuf attrs != [] || hasInnerHtmlKids kids
+def hasInnerHtmlKids : List Node → Bool
+  | [] => false
+  | n :: ns => hasInnerHtml n || hasInnerHtmlKids ns
+end
+
+/-- title text that RCDATA leaves alone: no `<`, no `&`, no NUL/CR -/
+def titleInert (t : Str) : Bool := t.all (fun c => c != cNul && c != cCr && c != '<' && c != '&')
+
 end Leptos.Html
